@@ -210,11 +210,19 @@ func targetStage(meta *common.Meta, tier, base, bin, outDir string) int {
 		if strings.HasSuffix(j.exe, "-analysis") || j.err != nil {
 			continue
 		}
-		yield := true
+		yield, goListCrash := true, false
 		for _, t := range j.ts {
-			if t.group == "argument-yields-no-package" || t.group == "go-list-gives-up" {
+			if t.group == "argument-yields-no-package" {
 				yield = false
 			}
+			if t.group == "go-list-gives-up" {
+				goListCrash = true
+			}
+		}
+		if goListCrash {
+			// `go list` panics while streaming; go/packages sometimes accepts the part already written: what the
+			// arguments yield is not a function of the inputs here (recorded finding), so it is no model case
+			continue
 		}
 		obs := "Ran"
 		if j.code != 0 && !targetDiagLine(j.out) {
